@@ -191,11 +191,13 @@ class FaultLinear:
     """Substituted for pygradflow.linear_solver.linear_solver: the k-th factorisation
     (construction) or the k-th solve call raises LinearSolverError."""
 
-    def __init__(self, fail_factor=(), fail_solve=()):
+    def __init__(self, fail_factor=(), fail_solve=(), fail_trans_solve=()):
         self.fail_factor = set(fail_factor)
         self.fail_solve = set(fail_solve)
+        self.fail_trans_solve = set(fail_trans_solve)  # counted over transposed solves only (condition estimator)
         self.n_factor = 0
         self.n_solve = 0
+        self.n_trans = 0
         self.fired = []
 
     def __enter__(self):
@@ -227,6 +229,11 @@ class _FaultSolver:
         if o.n_solve in o.fail_solve:
             o.fired.append(("solve", o.n_solve))
             raise LinearSolverError("injected solve failure")
+        if trans:
+            o.n_trans += 1
+            if o.n_trans in o.fail_trans_solve:
+                o.fired.append(("trans_solve", o.n_trans))
+                raise LinearSolverError("injected failure of a transposed solve")
         return self.inner.solve(rhs, trans=trans, initial_sol=initial_sol)
 
     def __getattr__(self, name):
